@@ -78,12 +78,12 @@ verus! {
                 forall|j: int| 0 <= j < keyspaces.vals@.len() ==> *(#[trigger] it.snapshot@.remaining()[j]) == keyspaces.vals@[j],
                 0 <= it.index@ <= keyspaces.vals@.len(),
                 forall|i: int| 0 <= i < keyspaces.vals@.len() ==> (#[trigger] keyspaces.vals@[i]).tree.id@ == keyspaces.vals@[i].id && old(w).trees.dom().contains(keyspaces.vals@[i].id),
-                forall|i: int| 0 <= i < it.index@ ==> (highest(old(w).trees[(#[trigger] keyspaces.vals@[i]).id]) is Some ==> w.seqno > highest(old(w).trees[keyspaces.vals@[i].id])->Some_0), // [C11:counter-above-every-recovered-seqno]
+                forall|i: int| 0 <= i < it.index@ ==> (highest(old(w).trees[(#[trigger] keyspaces.vals@[i]).id]) is Some ==> w.seqno > highest(old(w).trees[keyspaces.vals@[i].id])->Some_0), // [C11:counter-above-every-recovered-seqno] [C06:new-snapshots-cover-everything-recovered]
 //@proof before shim_slice_end
     proof {
         // C11: at the end of the restore block the seqno counter dominates every seqno of every registered keyspace ...
         assert(*w == (World { seqno: w.seqno, ..*old(w) }));
-        assert(forall|i: int| 0 <= i < keyspaces.vals@.len() ==> (highest(old(w).trees[(#[trigger] keyspaces.vals@[i]).id]) is Some ==> w.seqno > highest(old(w).trees[keyspaces.vals@[i].id])->Some_0)); // [C11:counter-above-every-recovered-seqno]
+        assert(forall|i: int| 0 <= i < keyspaces.vals@.len() ==> (highest(old(w).trees[(#[trigger] keyspaces.vals@[i]).id]) is Some ==> w.seqno > highest(old(w).trees[keyspaces.vals@[i].id])->Some_0)); // [C11:counter-above-every-recovered-seqno] [C06:new-snapshots-cover-everything-recovered]
         // ... and of the meta keyspace (tree 0), whose tables are written at fresh seqnos by keyspace creation/deletion
         assert(highest(old(w).trees[0]) is Some ==> w.seqno > highest(old(w).trees[0])->Some_0); // [C11:counter-above-the-meta-tree]
     }
